@@ -483,7 +483,11 @@ def simulate(case, dupmask, skip_d11=False):
             entries = bool(zc.registry.has_entries)
             cur["down"] = []
             # an IPv6 socket hands over (address, port, flow, scope id): nothing may depend on the extra two
-            lst.datagram_received(data, (src[0], src[1], 0, 3) if case.get("v6_tuple") else src)
+            # every delivery is a **fresh bytes object**, as every `recvfrom` of a socket is: two copies of a datagram are equal,
+            # never identical -- a guard (or a deferred-packet scan) that compares with `is` must not look right here
+            fresh = bytes(bytearray(data))
+            assert fresh == data and (fresh is not data or not data)
+            lst.datagram_received(fresh, (src[0], src[1], 0, 3) if case.get("v6_tuple") else src)
             down, cur["down"] = cur["down"], None
             processed = lst.last_message is not before
             if not processed:
@@ -553,6 +557,7 @@ def simulate(case, dupmask, skip_d11=False):
                     after = downstream_digest(zc)
                     second = {"sends": obs["sends"][n_s2:], "callbacks": obs["callbacks"][n_c2:]}
                     obs["second_copies"].append({"key": i, "sig": known_sig(sg), "tc": sg["tc"], "qm": sg["qm_answers"], "remulticast": sorted(set(sg["remulticast"])),
+                                                 "src": list(src),
                                                  "first": first, "second": second,
                                                  "cache_same": before["cache"] == after["cache"], "queues_same": before["queues"] == after["queues"]})
 
@@ -791,6 +796,72 @@ def classify(case, ref, skip_d11):
     return "C16:non-qu-duplicate-changes-behaviour", sg
 
 
+def first_difference(ref, full):
+    """the earliest event at which the send log of the nothing-spared run departs from the reference (allowed extra unicast answers
+    skipped): ("extra", event of full) | ("missing", event of ref) | None; plus whether an allowed extra unicast answer had gone to
+    the instance itself before that point (one more *arrival* there: everything later may follow from it)"""
+    keys = allowed_keys(full)
+    mr, mf = mark(ref, keys), mark(full, keys, ref)
+    i = 0
+    self_extra = False
+    for k, d in enumerate(mf):
+        if i < len(mr) and mr[i][0] == d[0] and mr[i][2] == d[2]:
+            i += 1
+            continue
+        ev = full["sends"][k]
+        if d[1]:
+            if ev[1] == "10.0.0.1":
+                self_extra = True
+            continue
+        if i < len(mr) and mr[i][0] < d[0]:
+            return ("missing", ref["sends"][i]), self_extra
+        return ("extra", ev), self_extra
+    if i < len(mr):
+        return ("missing", ref["sends"][i]), self_extra
+    return None, self_extra
+
+
+def recs_of(ev):
+    return {rkey(k) for k in ev[3][2]} if len(ev[3]) > 2 and isinstance(ev[3][2], list) else set()
+
+
+def classify_full_difference(case, ref, full):
+    """name the difference between the reference and the run that duplicates *every* delivery by what it **is**, not by which
+    delivery was duplicated: a recorded finding's signature only if the first departure from the reference has the shape the
+    finding predicts --
+      D11:  one more multicast datagram to the mDNS group at the very instant of a duplicated query in D11's class (`mcast_now` is
+            immediate), carrying only records D11 predicts for that query (`remulticast`: the not-recent answers and their additionals);
+      D11b: the multicast-path answers of a duplicated query in D11b's class go through the path again -- immediate, or through the
+            aggregation queues (20-120 ms jitter, 500 ms deadline, +1 s for a record multicast in the last second): within that span
+            after the query, (i) one more multicast datagram carrying only records predicted for D11b queries of that span, or (ii) a
+            multicast datagram of the reference carrying such a record is not sent at its time (the doubled group waits for the deadline);
+    (what happens after that point follows from it and cannot be predicted: the extra multicast loops back, refreshes the cache,
+    moves later answers).  A first departure of any other shape is a fresh violation."""
+    fd, self_extra = first_difference(ref, full)
+    sgs = [dict(sg, key=k) for k, sg in full["sigs"].items() if known_sig(sg) is not None and not sg.get("tc")]
+    if fd is None:
+        d = compare(ref, full)
+        return "C16:duplicates-change-callbacks-or-errors-only", {"diff": d}
+    kind, ev = fd
+    t0 = ev[0]
+    span = 1000 + 500 + 120 + case.get("maxdelay", 0)
+    if not is_unicast(ev) and ev[2] == 5353 and recs_of(ev):
+        if kind == "extra":
+            for sg in sgs:
+                if known_sig(sg) == D11_SIG and sg["t"] == t0 and recs_of(ev) <= set(sg["remulticast"]):
+                    return D11_SIG, {"first_difference": [kind, ev], "culprit": sg}
+        near = [sg for sg in sgs if known_sig(sg) == D11B_SIG and 0 <= t0 - sg["t"] <= span]
+        predicted = set()
+        for sg in near:
+            predicted |= set(sg["remulticast"])
+        if near and ((kind == "extra" and recs_of(ev) <= predicted) or (kind == "missing" and recs_of(ev) & predicted)):
+            return D11B_SIG, {"first_difference": [kind, ev], "culprit": near[-1]}
+    if self_extra:
+        return OWN_QU, {"first_difference": [kind, ev]}
+    return "C16:qu-duplicate-difference-not-predicted-by-a-finding", {"first_difference": [kind, ev],
+                                                                     "known_class_deliveries": [[sg["key"], known_sig(sg)] for sg in sgs][:6]}
+
+
 def second_copy_findings(obs):
     """the property's exception, checked where it applies: on the second copy of every duplicated QU query (those matching
     a recorded finding included).  Allowed: at most one unicast datagram, to the querier, with nothing the first copy did not
@@ -814,6 +885,19 @@ def second_copy_findings(obs):
         n_first_uni = sum(1 for x in sc["first"]["sends"] if is_unicast(x))
         if len(uni) > max(1, n_first_uni):
             bad.append(("C16:second-copy-unicast-not-a-repeat", "the second copy of a QU query was answered by %d unicast datagrams (the first by %d)" % (len(uni), n_first_uni), where))
+        # "answered by unicast twice": the second answer goes where the first went -- to the querier's address *and port*
+        src = sc.get("src")
+        stray = [x for x in uni if src is not None and (x[1], x[2]) != (src[0], src[1])]
+        if stray:
+            bad.append(("C16:second-copy-unicast-to-wrong-destination", "the second copy of a QU query from %s:%d was answered by unicast to %s:%d"
+                        % (src[0], src[1], stray[0][1], stray[0][2]), where))
+        # what a recorded finding predicts is *the first copy's multicast again*: no more datagrams than the first copy sent, to the mDNS group
+        mc_first = [x for x in sc["first"]["sends"] if not is_unicast(x)]
+        if sc["sig"] and len(mc) > len(mc_first):
+            bad.append(("C16:second-copy-multicast-datagram-count", "under %s the second copy was answered by %d multicast datagrams, the first by %d"
+                        % (sc["sig"], len(mc), len(mc_first)), where))
+        if [x for x in mc if x[2] != 5353]:
+            bad.append(("C16:second-copy-multicast-to-wrong-port", "the second copy's multicast answer went to port %d" % [x for x in mc if x[2] != 5353][0][2], where))
         extra_mc = [k for x in mc if len(x[3]) > 2 for k in x[3][2] if rkey(k) not in allowed_mc]
         if mc and not sc["sig"] and not sc["tc"]:
             bad.append(("C16:second-copy-multicasts", "the second copy of a QU query whose answers were all heard within a quarter of their TTL was answered by multicast again", where))
@@ -889,24 +973,15 @@ def run_case(res, case, ctx, lines_acc):
             violate_limited(res, sig_, what_, {"case": case, "where": where_, "run": "every delivery duplicated"})
         res.count("second-copies-under-a-finding-checked", sum(1 for x in full["second_copies"] if x["sig"]))
         d2 = compare(ref, full)
-        if d2 is not None and diff is None and (res.dist.get("violations:" + D11_SIG, 0) < 3 or res.dist.get("violations:" + D11B_SIG, 0) < 3):
-            sig, sg = classify(case, ref, False)
-            if sig.endswith("no-single-culprit"):
-                # the main run (everything duplicated except deliveries matching a recorded finding) was equivalent, so the
-                # difference needs several of those deliveries together: attribute it by duplicating them alone, per finding
-                by = {k: {i for i, v in dup["d11sig"].items() if v == k} for k in (D11B_SIG, D11_SIG, OWN_QU)}
-                for k in (D11B_SIG, D11_SIG, OWN_QU):
-                    if by[k] and compare(ref, simulate(case, by[k])) is not None:
-                        sig = k
-                        break
-                else:
-                    if compare(ref, simulate(case, by[D11B_SIG] | by[D11_SIG] | by[OWN_QU])) is not None:
-                        sig = D11B_SIG if by[D11B_SIG] else (D11_SIG if by[D11_SIG] else OWN_QU)
-            what = WHAT.get(sig, "duplicated delivery changes the externally visible behaviour: " + d2["what"])
+        if d2 is not None and diff is None:
+            # (no sampling: the classification needs no further runs)
+            sig, detail = classify_full_difference(case, ref, full)
+            what = WHAT.get(sig, "every delivery duplicated: the first departure from the reference run is not what a recorded finding predicts (" + d2["what"] + ")")
             if sig == OWN_QU:
                 res.count("runs-that-differ-only-through-an-extra-unicast-answer-to-the-instance-itself")
             else:
-                violate_limited(res, sig, what, {"case": case, "diff": d2, "culprit": sg})
+                res.count("full-run-difference:" + sig)
+                violate_limited(res, sig, what, {"case": case, "diff": d2, "detail": detail})
     return diff
 
 
